@@ -1,9 +1,30 @@
 import WM.Proto
 import WM.Drv.C11
+import WM.Model.MatcherWalk
 namespace WM.Drv.C12
-open WM.Proto
+open WM.Proto WM.Matcher
 
-/-- Protocol handler of family `c12`: the matcher protocol of `c11` (same trees, same programs). -/
-def handle (args : List SExp) : String := WM.Drv.C11.handle args
+def parseQOp : SExp → Option QOp
+  | .atom "next" => some .next
+  | .list [.atom "skipq", q] => q.rat?.map .skipq
+  | _ => none
+
+/-- Protocol handler of family `c12`: the matcher protocol of `c11` (same trees, same programs) and
+
+      c12 walk TREE (WOP ...)  -> ((id score)..visited) ((id score)..remaining)   |  !Error
+      WOP ::= next | (skipq q)
+
+    the quality walk `runW` (theorem `WM.C12.walk_keeps`): the calls are issued while the matcher is active. -/
+def handle (args : List SExp) : String :=
+  match args with
+  | [.atom "walk", tree, .list prog] =>
+    match WM.Drv.C11.parseTree tree, prog.mapM parseQOp with
+    | some (.ok m), some prog =>
+      match runW m.1 m.2 prog with
+      | .ok (m', v) => s!"{WM.Drv.C11.showDen v} {WM.Drv.C11.showDen (den m.1 m')}"
+      | .error e => s!"!{WM.Drv.C11.errName e}"
+    | some (.error e), some _ => s!"!{WM.Drv.C11.errName e}"
+    | _, _ => "bad-op"
+  | _ => WM.Drv.C11.handle args
 
 end WM.Drv.C12
